@@ -92,6 +92,10 @@ def core_part(c, pid="P1", name="Pno"):
     if c.get("qh"):
         # declaration history of the divisions table (mc/c03_model._build_part_phased); `q` is its final table
         spec["qh"] = c["qh"]
+    if c.get("nf"):
+        # number form [numpy type name, [number families]] (mc/c03_model.number_form): how the numbers of the
+        # construction calls are handed to the library; the spec itself keeps Python ints
+        spec["nf"] = [c["nf"][0], list(c["nf"][1])]
     return M.finish_part(spec)
 
 
@@ -123,10 +127,15 @@ def expand(case):
     if "score" in case:
         return case["score"]
     if "parts" in case:
+        nf = case.get("nf")  # a number form of the case holds for all its parts and groups
+
         def rec(x):
             if "group" in x:
-                return {"group": x["group"], "children": [rec(y) for y in x["children"]]}
-            return core_part(x, x.get("id", "P1"), x.get("name"))
+                g = {"group": x["group"], "children": [rec(y) for y in x["children"]]}
+                if nf:
+                    g["nf"] = [nf[0], list(nf[1])]
+                return g
+            return core_part(dict(x, nf=nf) if nf else x, x.get("id", "P1"), x.get("name"))
         return {"parts": [rec(x) for x in case["parts"]]}
     return {"parts": [core_part(case)]}
 
@@ -1141,3 +1150,84 @@ def gen_G_fileio():
         n += 1
         if n % 400 == 0:
             yield dict(c, sp="G", io="path" if n % 800 == 0 else "fileobj")
+
+
+# ---------------------------------------------------------------------------------------------
+# N: number forms (the numbers of the construction calls given as numpy scalars)
+
+
+def nf_families(case):
+    """the number families (M.NUMBER_FAMILIES order) of which the score of the case holds at least one value"""
+    spec = expand(case)
+    parts = M.iter_parts(spec)
+
+    def groups(items):
+        for x in items:
+            if "group" in x:
+                yield x
+                for y in groups(x["children"]):
+                    yield y
+    out = []
+    for f in M.NUMBER_FAMILIES:
+        if f == "group":
+            has = any(isinstance(g["group"].get("number"), int) for g in groups(spec["parts"]))
+        else:
+            has = any(M.number_form(p, M.NUMBER_TYPES[0], [f])[1] > 0 for p in parts)
+        if has:
+            out.append(f)
+    return out
+
+
+def _nf_forms(case, pairs):
+    fams = nf_families(case)
+    forms = [[f] for f in fams]
+    if pairs:
+        forms += [list(x) for x in combinations(fams, 2)]
+    if len(fams) > (2 if pairs else 1):
+        forms.append(fams)
+    for t in M.NUMBER_TYPES:
+        for fm in forms:
+            yield dict(case, nf=[t, fm])
+
+
+N_VOICE_STAFF = ((1, 1), (2, 1), (2, 2), (3, 2))
+
+
+def gen_N_cores():
+    """one 2/4 measure (4 units of an eighth), all sets of <=2 events: span x (voice, staff) in N_VOICE_STAFF x
+    {note, rest}; every number family of the score alone and all of them together x every numpy type"""
+    alpha = [[k, s, e, v, st] for (s, e) in spans(0, 4) for (v, st) in N_VOICE_STAFF for k in ("n", "r")]
+    for n in (1, 2):
+        for comb in combinations(alpha, n):
+            for c in _nf_forms({"sp": "N1", "m": [[0, 4]], "ev": [list(x) for x in comb]}, False):
+                yield c
+
+
+N_FEATURE_CORES = [
+    # two staves, voices 1-3, chord of unequal members, grace note, fingering, tempo mark, dynamics on staff 2, key, clef change
+    {"m": [[0, 4]], "staves": 2, "ev": [["n", 0, 2, 1, 1], ["n", 0, 4, 2, 2], ["r", 2, 4, 1, 1], ["n", 1, 3, 3, 1]],
+     "grace": [[0, 1, "grace"]], "deco": [["fing", 0, 3], ["tempo", 0, 100], ["dyn", 0, "f", 2]],
+     "attr": [["ks", 0, 2, "major"], ["clef", 2, 1, "C", 3, 0]]},
+    # triplets (divisions 3) with two brackets against quarters in voice 2
+    {"q": [[0, 3]], "m": [[0, 6]], "ev": [["n", i, i + 1, 1, 1, i % 3] for i in range(6)] + [["n", 0, 3, 2, 2, 3], ["n", 3, 6, 2, 2, 4]],
+     "deco": [["tuplet", 0, 2], ["tuplet", 3, 5]]},
+    # divisions change at the barline, tie over it, second voice, repeat and ending
+    {"q": [[0, 1], [1, 2]], "m": [[0, 1], [1, 3]], "ts": [[0, 1, 4]], "ev": [["n", 0, 1, 1, 1], ["n", 1, 2, 2, 1], ["n", 1, 3, 1, 1, 0]],
+     "ties": [[0, 2]], "rep": [[0, 3]], "end": [[1, 1, 3]]},
+    # pickup measure, no voice 1 (voices 2 and 4), dotted note, unpitched note, flat key, clef with octave change
+    {"m": [[0, 2], [2, 6]], "mnames": ["0", "1"], "ev": [["n", 0, 2, 2, 1], ["n", 2, 5, 2, 1], ["u", 2, 4, 4, 1], ["n", 5, 6, 2, 1]],
+     "attr": [["ks", 0, -3, "minor"], ["clef", 0, 1, "G", 2, -1]], "deco": [["wedge", 2, 5, "+"], ["nferm", 3]]},
+    # three parts, nested numbered groups
+    {"parts": [{"group": {"symbol": "bracket", "name": "Grp", "number": 1}, "children": [
+        dict(PART_CORES[0], id="P1", name="Violin"),
+        {"group": {"symbol": "brace", "name": None, "number": 2}, "children": [dict(PART_CORES[1], id="P2", name="Pno", abbr="P.")]}]},
+        dict(PART_CORES[2], id="P3", name=None)]},
+]
+
+
+def gen_N_features():
+    """the fixed feature cores N_FEATURE_CORES; every number family of the score alone, every pair of families and
+    all of them together x every numpy type"""
+    for core in N_FEATURE_CORES:
+        for c in _nf_forms(dict(core, sp="N2"), True):
+            yield c
